@@ -97,56 +97,147 @@ def operand(tok, env):
     raise Inconclusive(f"unrecognised operand `{tok}`")
 
 
-def interpret_closure(lines, nargs, sort):
-    """Symbolically executes a closure body; returns an SMT term over a (and b)."""
-    env = {"_2": "a"}
-    if nargs == 2:
-        env["_3"] = "b"
+def fp_const(x, sort):
+    eb, sb = (11, 53) if "11 53" in sort else (8, 24)
+    return f"((_ to_fp {eb} {sb}) RNE {x})"
+
+
+def interpret_closure(lines, nargs, sort, fns=None, params=None, depth=0):
+    """Symbolically executes a function body of the MIR dump (closure or named helper): straight-line code, calls of
+    trait methods, references, comparisons and switchInt branches (folded into ite terms). Returns an SMT term."""
+    if params is None:
+        params = {"_2": "a"}
+        if nargs == 2:
+            params["_3"] = "b"
     blocks = blocks_of(lines)
-    bb = "bb0"
-    steps = 0
     ufs = set()
-    while True:
-        steps += 1
-        if steps > 40 or bb not in blocks:
+    budget = [400]
+
+    def deref(tok, env):
+        tok = tok.strip()
+        m = re.match(r"(?:copy|move) \(\*(_\d+)\)$", tok)
+        if m:
+            tok = f"copy {m.group(1)}"
+        return operand(tok, env)
+
+    def call(trait, meth, args, env):
+        tkey = trait.split("::")[-1]
+        key = f"{tkey}>::{meth}"
+        if key in TRAIT_OPS:
+            op = TRAIT_OPS[key]
+            if op == "fp.neg":
+                return f"(fp.neg {args[0]})"
+            if op == "fp.rem":
+                raise Inconclusive("Rem in an operator body")
+            return f"({op} RNE {args[0]} {args[1]})"
+        if key == "One>::one":
+            return fp_const("1.0", sort)
+        if key == "Zero>::zero":
+            return fp_const("0.0", sort)
+        if tkey == "PartialEq" and meth in ("eq", "ne"):
+            t = f"(fp.eq {args[0]} {args[1]})"
+            return t if meth == "eq" else f"(not {t})"
+        if tkey == "PartialOrd" and meth in ("lt", "le", "gt", "ge"):
+            return f"(fp.{ {'lt': 'lt', 'le': 'leq', 'gt': 'gt', 'ge': 'geq'}[meth]} {args[0]} {args[1]})"
+        if tkey in ("Float", "Real", "FloatCore"):
+            if meth == "recip":
+                return f"(fp.div RNE {fp_const('1.0', sort)} {args[0]})"
+            if meth in ("is_nan",):
+                return f"(fp.isNaN {args[0]})"
+            name = f"F_{meth}"
+            ufs.add((name, len(args)))
+            return f"({name} {' '.join(args)})"
+        raise Inconclusive(f"call to <T as {trait}>::{meth} not understood")
+
+    def run(bb, env):
+        budget[0] -= 1
+        if budget[0] < 0 or bb not in blocks:
             raise Inconclusive("control flow not understood")
-        nxt = None
         for st in blocks[bb]:
-            if st.startswith(("StorageLive", "StorageDead", "nop", "FakeRead", "PlaceMention", "debug ", "let ", "scope")):
+            if st.startswith(("StorageLive", "StorageDead", "nop", "FakeRead", "PlaceMention", "debug ", "let ", "scope", "}")):
                 continue
             if st == "return;":
                 if "_0" not in env:
                     raise Inconclusive("return without value")
-                return env["_0"], ufs
+                return env["_0"]
             m = re.match(r"(_\d+) = (copy|move) (_\d+);$", st)
             if m:
                 env[m.group(1)] = operand(f"{m.group(2)} {m.group(3)}", env)
                 continue
+            m = re.match(r"(_\d+) = &(?:mut )?(_\d+);$", st)
+            if m:
+                if m.group(2) not in env:
+                    raise Inconclusive(f"reference to unknown local {m.group(2)}")
+                env[m.group(1)] = env[m.group(2)]
+                continue
+            m = re.match(r"(_\d+) = (?:copy|move) \(\*(_\d+)\);$", st)
+            if m:
+                env[m.group(1)] = env[m.group(2)]
+                continue
+            m = re.match(r"(_\d+) = const (-?[0-9.eE+-]+)_?f(32|64);$", st)
+            if m:
+                env[m.group(1)] = fp_const(m.group(2), sort)
+                continue
+            m = re.match(r"(_\d+) = <T as NumCast>::from::<f(?:32|64)>\(const ([^)]+)\) -> \[return: (bb\d+),", st)
+            if m:
+                c = m.group(2).replace("_f64", "").replace("_f32", "").replace("f64", "").replace("f32", "")
+                val = CONSTS.get(c)
+                if val is None:
+                    try:
+                        val = float(c)
+                    except ValueError:
+                        raise Inconclusive(f"constant {c} not understood")
+                env[m.group(1)] = ("opt", fp_const(repr(val), sort))
+                return run(m.group(3), env)
+            m = re.match(r"(_\d+) = Option::<T>::unwrap\(move (_\d+)\) -> \[return: (bb\d+),", st)
+            if m:
+                v = env.get(m.group(2))
+                if not (isinstance(v, tuple) and v[0] == "opt"):
+                    raise Inconclusive("unwrap of an unknown option")
+                env[m.group(1)] = v[1]
+                return run(m.group(3), env)
             m = re.match(r"(_\d+) = <T as ([A-Za-z:]+)>::(\w+)\((.*)\) -> \[return: (bb\d+), unwind[^\]]*\];$", st)
             if m:
                 dst, trait, meth, args, ret = m.groups()
-                args = [operand(a, env) for a in args.split(",")] if args.strip() else []
-                key = f"{trait.split('::')[-1]}>::{meth}"
-                if key in TRAIT_OPS:
-                    op = TRAIT_OPS[key]
-                    if op == "fp.neg":
-                        env[dst] = f"(fp.neg {args[0]})"
-                    elif op == "fp.rem":
-                        raise Inconclusive("Rem in an operator body")
-                    else:
-                        env[dst] = f"({op} RNE {args[0]} {args[1]})"
-                elif trait.endswith("Float") or trait.endswith("Real"):
-                    name = f"F_{meth}"
-                    ufs.add((name, len(args)))
-                    env[dst] = f"({name} {' '.join(args)})"
-                else:
-                    raise Inconclusive(f"call to <T as {trait}>::{meth} not understood")
-                nxt = ret
-                break
+                argv = [deref(x, env) for x in args.split(",")] if args.strip() else []
+                env[dst] = call(trait, meth, argv, env)
+                return run(ret, env)
+            m = re.match(r"(_\d+) = ([A-Za-z_][\w:]*?)(?:::<T>)?\((.*)\) -> \[return: (bb\d+), unwind[^\]]*\];$", st)
+            if m and fns is not None:
+                # call of a helper function of the crate: inline it
+                dst, fname, args, ret = m.groups()
+                argv = [deref(x, env) for x in args.split(",")] if args.strip() else []
+                body = helper_body(fns, fname)
+                if body is None or depth > 3:
+                    raise Inconclusive(f"call to {fname} not understood")
+                t, u2 = interpret_closure(body, len(argv), sort, fns, {f"_{i + 1}": v for i, v in enumerate(argv)}, depth + 1)
+                ufs.update(u2)
+                env[dst] = t
+                return run(ret, env)
+            m = re.match(r"switchInt\((?:move|copy) (_\d+)\) -> \[0: (bb\d+), otherwise: (bb\d+)\];$", st)
+            if m:
+                c = env.get(m.group(1))
+                if c is None:
+                    raise Inconclusive("switch on unknown value")
+                e = run(m.group(2), dict(env))
+                t = run(m.group(3), dict(env))
+                return f"(ite {c} {t} {e})"
+            m = re.match(r"goto -> (bb\d+);$", st)
+            if m:
+                return run(m.group(1), env)
             raise Inconclusive(f"statement not understood: {st}")
-        if nxt is None:
-            raise Inconclusive("block without recognised terminator")
-        bb = nxt
+        raise Inconclusive("block without recognised terminator")
+
+    term = run("bb0", dict(params))
+    return term, ufs
+
+
+def helper_body(fns, name):
+    last = name.split("::")[-1]
+    cands = [h for h in fns if re.match(r"fn (?:[\w:<> ]*::)?" + re.escape(last) + r"\(", h)]
+    if len(cands) == 1:
+        return fns[cands[0]]
+    return None
 
 
 def parse_make(fns):
@@ -168,6 +259,10 @@ def parse_make(fns):
             m = re.match(r"(_\d+) = const ZeroSized: \{closure@([^}]+)\} as fn\((T(?:, T)?)\) -> T", st)
             if m:
                 closures[m.group(1)] = (m.group(2), 2 if "," in m.group(3) else 1)
+                continue
+            m = re.match(r"(_\d+) = ([A-Za-z_][\w:]*?)(?:::<T>)? as fn\((T(?:, T)?)\) -> T", st)
+            if m:
+                closures[m.group(1)] = ("fn:" + m.group(2), 2 if "," in m.group(3) else 1)
                 continue
             m = re.match(r"(_\d+) = BinOp::<T> \{ apply: move (_\d+), prio: const (-?\d+)_i64, is_commutative: const (true|false) \};$", st)
             if m:
@@ -315,7 +410,8 @@ def run(pid, tier, seed):
                 res["inconclusive_items"].append({"engine": "M", "what": f"{name} ({role}): function operand is not a closure literal"})
                 continue
             span, nargs = cl
-            body_lines = closure_body(fns, header, span)
+            named = span.startswith("fn:")
+            body_lines = helper_body(fns, span[3:]) if named else closure_body(fns, header, span)
             for width in (64, 32):
                 obligations += 1
                 try:
@@ -323,7 +419,10 @@ def run(pid, tier, seed):
                         raise Inconclusive("closure body not found in MIR dump")
                     if (role == "bin") != (nargs == 2):
                         raise Inconclusive("arity mismatch")
-                    body, ufs = interpret_closure(body_lines, nargs, fp_sort(width))
+                    params = {"_1": "a", "_2": "b"} if named else None
+                    if named and nargs == 1:
+                        params = {"_1": "a"}
+                    body, ufs = interpret_closure(body_lines, nargs, fp_sort(width), fns, params)
                 except Inconclusive as ex:
                     res["inconclusive_items"].append({"engine": "M", "what": f"{name} ({role}, f{width}): {ex}"})
                     continue
@@ -386,27 +485,41 @@ def run(pid, tier, seed):
     return res
 
 
-CATALOGUE = [2.0, 0.5, -3.0, 10.0, 0.1, 7.25, -0.75, 1e10, 1e-10, 0.0]
+SPECIALS = [0.0, -0.0, 1.0, -1.0, 0.5, 2.0, -3.0, 10.0, 0.1, float("inf"), float("-inf"), float("nan"), 5e-324, 1e300]
 
 
 def native_replay(f):
     """calls the real operator function pointer on the solver's operands (needs the symex helper binary). When the
-    two sides differ in an uninterpreted function symbol the solver's point is arbitrary, so a small catalogue of
-    further points is tried as well; the first point on which the real operator differs from the primitive is the witness."""
+    two sides differ in an uninterpreted function symbol or only on one branch of the body, the solver's point is
+    arbitrary in the other coordinates, so the solver's operands are also crossed with a catalogue of special values;
+    the first point on which the real operator differs from the primitive is the witness."""
     import engines
     ok, _ = engines.build_symex()
     if not ok:
         return None, "no native replay possible"
     width = f["width"]
     def bits(x):
-        return struct.unpack("<Q", struct.pack("<d", x))[0] if width == 64 else struct.unpack("<I", struct.pack("<f", x))[0]
+        if width == 64:
+            return struct.unpack("<Q", struct.pack("<d", x))[0]
+        if abs(x) > 3e38 and x == x and abs(x) != float("inf"):
+            x = 3e38 if x > 0 else -3e38
+        return struct.unpack("<I", struct.pack("<f", x))[0]
     points = []
-    if f.get("a_bits") is not None:
-        points.append((f["a_bits"], f.get("b_bits") or 0))
-    for i, x in enumerate(CATALOGUE):
-        points.append((bits(x), bits(CATALOGUE[(i + 3) % len(CATALOGUE)])))
+    sa, sb = f.get("a_bits"), f.get("b_bits")
+    if sa is not None:
+        points.append((sa, sb or 0))
+    sp = [bits(x) for x in SPECIALS]
+    if sb is not None:
+        points += [(x, sb) for x in sp]
+    if sa is not None:
+        points += [(sa, y) for y in sp]
+    points += [(x, y) for x in sp for y in sp]
     last = ""
+    seen = set()
     for (a, b) in points:
+        if (a, b) in seen:
+            continue
+        seen.add((a, b))
         args = [engines.SYMEX_BIN, "floatop", "--name", f["text"], "--role", f["role"], "--width", str(width), "--a", str(a), "--b", str(b)]
         p = subprocess.run(args, capture_output=True, text=True)
         last = p.stdout.strip()
